@@ -36,6 +36,7 @@ ASSUMPTIONS = [
 TOLERANCES = {"same key": "bit-identical", "across threads / processes": "1e-12 * max|field| (double)", "single vs double": "1e-5 * max|field|"}
 BUDGET = {"quick": dict(examples=200, shards=1), "thorough": dict(examples=400, shards=4, procs=4)}
 STEP_COUNT = {"quick": 25, "thorough": 50}
+CONFIRM_FRESH_PROCESS = True  # hidden process state is the subject: a failure is re-run in a fresh interpreter too
 
 
 def _spec_inputs(k):
